@@ -216,3 +216,40 @@ Proof.
     apply Ascii.eqb_eq in Hc. subst. rewrite repeat_o_S. f_equal. now apply all_o_is_repeat.
   - intros [n ->]. unfold match_o_plus. rewrite repeat_o_S. rewrite <- repeat_o_S. apply all_o_repeat.
 Qed.
+
+(* ---- installs ---- *)
+
+Lemma lookup_remove_same : forall A u (m : list (string * A)), lookup u (remove_user u m) = None.
+Proof.
+  induction m as [|[k v] m IH]; simpl; auto.
+  destruct (String.eqb u k) eqn:E; auto. simpl. now rewrite E.
+Qed.
+
+Lemma lookup_remove_other : forall A u u' (m : list (string * A)), u' <> u -> lookup u' (remove_user u m) = lookup u' m.
+Proof.
+  induction m as [|[k v] m IH]; simpl; intros NE; auto.
+  destruct (String.eqb u k) eqn:E.
+  - apply String.eqb_eq in E. subst k. destruct (String.eqb u' u) eqn:E2; [apply String.eqb_eq in E2; contradiction|auto].
+  - simpl. destruct (String.eqb u' k); auto.
+Qed.
+
+(* after setUser(u, m) the cells of u are exactly m (none when m is empty), everybody else's are unchanged,
+   and the superuser's entry cannot be set *)
+Lemma set_user_cells : forall a u m u' s, u <> superuser a ->
+  cell (apply_install a (ISet u m)) u' s =
+  if String.eqb u' u then lookup s m else cell a u' s.
+Proof.
+  intros a u m u' s NE. unfold apply_install.
+  destruct (String.eqb u (superuser a)) eqn:E; [apply String.eqb_eq in E; contradiction|].
+  unfold cell. destruct (String.eqb u' u) eqn:E2.
+  - apply String.eqb_eq in E2. subst u'. destruct m as [|x m]; cbn [users].
+    + now rewrite lookup_remove_same.
+    + cbn [lookup]. now rewrite String.eqb_refl.
+  - assert (u' <> u) as N2 by (intro X; subst; rewrite String.eqb_refl in E2; discriminate).
+    destruct m as [|x m]; cbn [users].
+    + now rewrite lookup_remove_other.
+    + cbn [lookup]. rewrite E2. now rewrite lookup_remove_other.
+Qed.
+
+Lemma set_super_refused : forall a m, apply_install a (ISet (superuser a) m) = a.
+Proof. intros. unfold apply_install. now rewrite String.eqb_refl. Qed.
